@@ -13,7 +13,8 @@ Generator : sequences of 1-5 command lines.  Each line is a pipeline of 1-4 stag
             real Execer in a real XonshSession; the children are real processes.
 Oracle    : snapshots (vlib/c09_observe.py) of /proc/self/fd with link targets, /proc/self/task/*/children,
             threading.enumerate(), cwd, identity of sys.stdin/stdout/stderr, SIGINT/SIGTSTP/SIGQUIT/
-            SIGWINCH handlers, the effective xonsh environment, os.environ.  Three strengths, reported
+            SIGWINCH handlers, the main thread's signal mask (children inherit it), the effective xonsh
+            environment, os.environ.  Three strengths, reported
             separately:
               immediate - right after the command(s) (grace poll <= 2 s for helper threads / children):
                           equal to the snapshot before;
@@ -25,6 +26,31 @@ Oracle    : snapshots (vlib/c09_observe.py) of /proc/self/fd with link targets, 
             Finally a self-sent SIGINT must surface as KeyboardInterrupt in the main thread.
             Thorough tier: the same cases in a worker that owns a pty (setsid + TIOCSCTTY,
             $XONSH_INTERACTIVE=True); tcgetpgrp and termios attributes are part of the snapshot.
+Stage kinds added for the early-exit dimension: an endless producer (`vyes`: ends by SIGPIPE only, self-limited by alarm(45)),
+            a slow 1 MB producer, 1 MB to stderr, cat(1) (predicted unthreadable: plain Popen + PrevProcCloser even with
+            threads on), `wc -l` (needs EOF before it writes).  Family "early-exit matrix" (deterministic): producer first,
+            an early-exiting stage at every later position of 3- and 4-stage pipelines, copy-until-EOF stages elsewhere,
+            every capture form, threads on/off; the Hypothesis strategy has the same shape with 3-5 stages and up to two
+            early exits.  A line that cannot end by itself (`vyes | vcat`, `vyes | wc -l | vexit 0`) is never generated
+            (never_ends / make_finite); an endless producer is never given a file redirect.
+Family jobctl (quick + thorough; vlib/c09_tty.py): histories of job-control operations in an interactive session that is
+            session leader of its own pty (a fork of the worker; real Execer, $XONSH_INTERACTIVE=True, the signal dispositions
+            of an interactive xonsh).  Operations: run a foreground job (sleep / 2-stage pipelines x bare, ![..], $[..], $(..));
+            while it owns the terminal the "user" waits, types Ctrl-Z (0x1a at the pty master), types Ctrl-C (0x03), or the
+            job's group gets SIGTERM / SIGKILL from outside; `fg` / `bg` (no argument, +, -, number) with the same user actions
+            during `fg`; `cmd &`; kill a background / stopped job from outside; `jobs`; plain lines (alias, captured, pipelines,
+            command not found behind a started stage); Ctrl-C at the prompt.  A deterministic core (every job form x threads x
+            suspend->fg->exit | suspend->fg->suspend->fg->Ctrl-C | suspend->bg->fg->kill ...) runs next to Hypothesis-drawn
+            histories.  Oracle, every time the prompt is back: os.tcgetpgrp(tty) == the shell's process group (as seen by the
+            shell right at return, a little later, and by the driver through the master); every child of the shell (running,
+            stopped or zombie, <= 2 s grace) belongs to a job of the job table; no job that is not a background job still has
+            running processes; the line returned within 20 s of the user action.  When the history is over every job is killed,
+            `jobs` and a neutral alias are run, and descriptors, threads, signal handlers, signal mask, cwd, sys.std* must equal the state
+            after the warm-up command; then Ctrl-C typed during `sleep 30` must end it and Ctrl-C typed at the prompt must raise
+            KeyboardInterrupt in the shell.  All waits are polls with bounds (precondition of a user action: the job's group
+            owns the terminal, all its processes are exec'ed and not stopped, the shell sleeps, stable for 0.12 s); a
+            precondition that is not reached is *inconclusive*; a violation is reported only if a second fresh session
+            reproduces it.
 """
 
 from __future__ import annotations
@@ -41,15 +67,21 @@ from vlib.common import Failure, Stats
 
 PROP = "C09"
 LEVEL = "exploration"
-RULE = ("sequence of 1-5 command lines, each a pipeline of 1-4 stages (21 stage kinds: external/alias x ok/failing/not-found/"
-        "permission-denied/raising/big producer/early exit/never reads/unthreadable/nested) x capture form (7) x redirect "
+RULE = ("sequence of 1-5 command lines, each a pipeline of 1-5 stages (26 stage kinds: external/alias x ok/failing/not-found/"
+        "permission-denied/raising/big, slow and endless producer/1 MB to stderr/early exit at every position/never reads/needs EOF/"
+        "unthreadable (decorated or predicted)/nested) x capture form (7) x redirect "
         "(none/valid/missing/conflicting) x $THREAD_SUBPROCS x $XONSH_CAPTURE_ALWAYS x $XONSH_SUBPROC_RAISE_ERROR x repetitions "
         "(1,3,30[,300]); before/after process snapshots at three strengths (immediate, steady-state, strict after XSH.lastcmd is "
         "displaced) + SIGINT probe; non-trivial = some pipeline has >= 2 stages or a failing/not-found/permission-denied/raising "
-        "stage or a redirect error; distinct = hash of (config, command sources, repetitions)")
+        "stage or a redirect error; distinct = hash of (config, command sources, repetitions).  Family jobctl: history of 1-8 job-control "
+        "operations (run fg job x form x {wait, Ctrl-Z, Ctrl-C, SIGTERM, SIGKILL}, fg/bg x argument, cmd &, kill job, jobs, plain lines, "
+        "Ctrl-C at the prompt) in an interactive session on its own pty; after every return to the prompt: terminal foreground group == "
+        "shell's, children subset of the job table, no running non-background job; at the end state == state after warm-up and Ctrl-C "
+        "interrupts; every history is non-trivial; distinct = hash of (config, operations)")
 
 HANG_S = 20.0
 GRACE_S = 2.0
+JOBCTL_TASK_S = 40.0        # wall budget of one task of generated job-control histories (quick tier)
 
 # id -> (kind label, source text, is a callable alias)
 STAGES = {
@@ -63,6 +95,11 @@ STAGES = {
     "big": ("ext-big", "vemit big.txt 1 4096 0 0", False),
     "head": ("ext-early-exit", "head -n 1", False),
     "linger": ("ext-noread", "vemit small.txt 1 0 0 0 30000", False),
+    "yes": ("ext-endless", "vyes", False),                          # endless producer, ends by SIGPIPE only (never generated last)
+    "slow": ("ext-slow-producer", "vemit big.txt 1 4096 300 0", False),
+    "ebig": ("ext-big-stderr", "vemit big.txt 2 4096 0 0", False),  # 1 MB to stderr
+    "rcat": ("ext-cat-unthreadable", "cat", False),                 # cat(1): predicted unthreadable -> plain Popen as last stage
+    "wc": ("ext-reads-all", "wc -l", False),                        # needs EOF on stdin before it writes anything
     "lal": ("alias-list", "lal", False),
     "aok": ("alias-ok", "aok", True),
     "acat": ("alias-ok", "acat", True),
@@ -78,8 +115,15 @@ STAGES = {
 STAGE_IDS = list(STAGES)
 FAILING = {"x3", "nf", "np", "nd", "afail", "araise"}
 NOSTART = {"nf", "np"}            # found out only when the stage is launched
-PRODUCERS = {"big", "abig"}
+PRODUCERS = {"big", "abig", "yes", "slow"}
+ENDLESS = {"yes"}
+COPIERS = {"cat", "acat", "rcat"}                 # stdout = stdin, end at EOF (or by SIGPIPE)
+NEED_EOF = COPIERS | {"wc"}                       # do not end before their stdin does
 NONREADERS = {"head", "ahead", "x0", "x3", "aign", "linger", "nf", "np", "aok", "afail", "araise", "emit", "lal"}
+EARLY = ["head", "x0", "x3", "linger", "emit", "ahead", "aok"]     # stages that end without reading their stdin to the end
+UNTHREADABLE_LAST = {"rcat", "aunth", "yes"}      # run without a reader thread as last stage even when $THREAD_SUBPROCS is on
+PIPE_CAPACITY = 65536
+VOLUME = {"big": 1060000, "slow": 1060000, "abig": 208000}      # bytes written to stdout by the producers
 FORMS = ["bare", "hidden", "uncap", "cap", "inject", "obj-end", "obj-rtn"]
 REDIRS = {
     "valid": [("last", " > out1.txt"), ("last", " >> out2.txt"), ("any", " e> err1.txt"), ("last", " a> all1.txt"),
@@ -172,6 +216,17 @@ def _setup(scratch, tty=False):
     mode = ob.self_test()
     if mode is None:
         raise common.HarnessError("C09: cannot observe child processes through /proc")
+    cwd = _make_cwd(scratch)
+    signal.signal(signal.SIGALRM, _alarm)
+    signal.signal(signal.SIGINT, signal.default_int_handler)
+    _state.update(
+        ob=ob, session=session, scratch=scratch, cwd=cwd, tty_fd=tty_fd, master=master, children_mode=mode,
+        std=(sys.stdin, sys.stdout, sys.stderr), handlers=ob.handlers(), tainted=None,
+        open={e["id"] for e in common.load_known(PROP) if e.get("status") == "open"})
+    return _state
+
+
+def _make_cwd(scratch):
     cwd = os.path.join(scratch, "c09cwd-%d" % os.getpid())
     os.makedirs(os.path.join(cwd, "pathdir"), exist_ok=True)
     with open(os.path.join(cwd, "big.txt"), "w") as f:
@@ -184,12 +239,40 @@ def _setup(scratch, tty=False):
             f.write("#!/bin/sh\nexit 0\n")
         os.chmod(os.path.join(cwd, p), 0o644)
     os.chdir(cwd)
-    signal.signal(signal.SIGALRM, _alarm)
-    signal.signal(signal.SIGINT, signal.default_int_handler)
-    _state.update(
-        ob=ob, session=session, scratch=scratch, cwd=cwd, tty_fd=tty_fd, master=master, children_mode=mode,
-        std=(sys.stdin, sys.stdout, sys.stderr), handlers=ob.handlers(), tainted=None,
-        open={e["id"] for e in common.load_known(PROP) if e.get("status") == "open"})
+    return cwd
+
+
+def _setup_files(scratch):
+    """Set-up of a worker that only *drives* sessions on ptys (family jobctl): helper programs, the working
+    directory with its data files, xonsh imported and the parser built once (every session is a fork of
+    this process).  No thread is started and the worker's own descriptors 0/1/2 go to /dev/null."""
+    if _state:
+        return _state
+    helpers.ensure()
+    os.dup2(os.open(os.devnull, os.O_RDONLY), 0)
+    w = os.open(os.devnull, os.O_WRONLY)
+    os.dup2(w, 1)
+    os.dup2(w, 2)
+    os.close(w)
+    from vlib import c09_observe as ob
+    from vlib import session
+
+    cwd = _make_cwd(scratch)
+    ex = session.get_execer()
+    # xonsh builds the yacc parser on a loader thread: a session forked before that thread is done would wait for it for ever
+    loader = getattr(getattr(ex, "parser", None), "_yacc_loader", None)
+    if loader is not None:
+        loader.join(300)
+    import threading
+
+    t0 = time.monotonic()
+    while threading.active_count() > 1 and time.monotonic() - t0 < 30:
+        time.sleep(0.01)
+    if threading.active_count() > 1:
+        raise common.HarnessError("C09 jobctl: the worker still has helper threads (%s); forking sessions from it is not safe"
+                                  % [t.name for t in threading.enumerate()])
+    _state.update(ob=ob, session=session, scratch=scratch, cwd=cwd, tty_fd=None, interactive=True, master=None, tainted=None,
+                  open={e["id"] for e in common.load_known(PROP) if e.get("status") == "open"})
     return _state
 
 
@@ -260,7 +343,7 @@ def fresh_session(cfg):
     extra = {"THREAD_SUBPROCS": bool(cfg.get("thread", True)), "XONSH_SUBPROC_RAISE_ERROR": bool(cfg.get("raise", True))}
     if cfg.get("capture_always"):
         extra["XONSH_CAPTURE_ALWAYS"] = True
-    if st["tty_fd"] is not None:
+    if st["tty_fd"] is not None or st.get("interactive"):
         extra["XONSH_INTERACTIVE"] = True
     XSH = session.load_session(st["scratch"], path=[session.HELPER_DIR, os.path.join(st["cwd"], "pathdir"), "/usr/bin", "/bin"],
                                **extra)
@@ -338,6 +421,16 @@ def case_labels(case):
         for a, b in zip(stages, stages[1:]):
             if a in PRODUCERS and b in NONREADERS:
                 labels.append("early-exit-under-producer")
+        for k, x in enumerate(stages):
+            if x in NONREADERS and any(y in PRODUCERS for y in stages[:k]):
+                pos = "last" if k == len(stages) - 1 else "middle"
+                labels.append("early-exit:%s-of-%d" % (pos, len(stages)))
+                if pos == "middle" and any(y in NEED_EOF for y in stages[k + 1:]):
+                    labels.append("early-exit:middle-then-reader-to-eof")
+        if any(x in ENDLESS for x in stages):
+            labels.append("endless-producer")
+        if stages and (not cfg.get("thread", True) or stages[-1] in UNTHREADABLE_LAST):
+            labels.append("last-stage:unthreaded")
         r = cmd.get("redir")
         if r:
             labels.append("redir:" + r[0])
@@ -427,6 +520,95 @@ def shape_f7(case):
     return _threaded(case) and case["cfg"].get("raise", True) and any("asub" in c["stages"] for c in case["cmds"])
 
 
+def stdout_volume(stages, k):
+    """Bytes stage k writes to its stdout (float('inf') for the endless producer), from the stage table."""
+    s = stages[k]
+    if s in ENDLESS:
+        return float("inf")
+    if s in COPIERS:
+        return stdout_volume(stages, k - 1) if k > 0 else 0
+    return VOLUME.get(s, 100)
+
+
+def never_ends(stages):
+    """The line is not a command that 'finishes': its last stage (the one the shell waits for) writes for ever (`vyes`,
+    `vyes | vcat`), or some stage swallows an endless stream without ever writing (`vyes | wc -l | vexit 0`: wc is never
+    sent SIGPIPE and keeps vyes alive - every shell leaves or waits for such a pair for ever).  Never generated."""
+    inf = False                 # the stream that reaches the next stage is endless
+    for s in stages:
+        if s in ENDLESS:
+            inf = True
+        elif s in COPIERS:
+            pass
+        elif s == "wc":
+            if inf:
+                return True
+            inf = False
+        else:
+            inf = False
+    return inf
+
+
+def make_finite(stages):
+    """Repair of a drawn pipeline that would never end: an early-exiting stage goes behind the last endless producer."""
+    stages = list(stages)
+    while never_ends(stages):
+        k = max(i for i, s in enumerate(stages) if s in ENDLESS)
+        if k == len(stages) - 1:
+            stages.append("head")
+        else:
+            stages[k + 1] = "head"
+    return stages
+
+
+def shape_f8_cmd(cmd, case):
+    """`!(...)` whose last stage runs without a reader thread ($THREAD_SUBPROCS off, or a stage xonsh predicts / is told to be
+    unthreadable) and gets more than one pipe capacity written into the stderr pipe `!()` gives it (its own stderr, or its
+    stdout through `o>e`) - nobody drains that pipe while iterraw() waits for the process."""
+    if cmd["form"] not in ("obj-end", "obj-rtn") or not cmd["stages"]:
+        return False
+    st = cmd["stages"]
+    last = st[-1]
+    if _threaded(case) and last not in UNTHREADABLE_LAST:
+        return False
+    if not _threaded(case) and len(st) > 1 and any(STAGES[x][2] for x in st):
+        return False        # callable alias in a pipeline without threads: refused before anything is started
+    r = cmd.get("redir")
+    text = r[2] if r and r[1] == len(st) - 1 else ""
+    if " e>" in text or " a>" in text:
+        return False        # stderr goes to a file / to stdout: no stderr pipe
+    to_stderr = 1060000 if last == "ebig" else 0
+    if " o>e" in text:
+        to_stderr += stdout_volume(st, len(st) - 1)
+    return to_stderr > PIPE_CAPACITY
+
+
+def shape_f8(case):
+    return any(shape_f8_cmd(c, case) for c in case["cmds"])
+
+
+def _avoid_f8(case):
+    """Takes the recorded shape out by construction: the offending `!(...)` becomes `$(...)` (no stderr pipe)."""
+    return dict(case, cmds=[mk_cmd(c["stages"], "cap", c.get("redir")) if shape_f8_cmd(c, case) else c for c in case["cmds"]])
+
+
+def shape_f10_cmd(cmd, case):
+    """`$[...]` (nothing captured) whose last stage is a threaded callable alias with `e>o` on it."""
+    st = cmd["stages"]
+    r = cmd.get("redir")
+    return bool(_threaded(case) and cmd["form"] == "uncap" and st and STAGES[st[-1]][2] and st[-1] != "aunth"
+                and r and r[1] == len(st) - 1 and " e>o" in r[2])
+
+
+def shape_f10(case):
+    return any(shape_f10_cmd(c, case) for c in case["cmds"])
+
+
+def _avoid_f10(case):
+    """Takes the recorded shape out by construction: the `e>o` goes."""
+    return dict(case, cmds=[mk_cmd(c["stages"], c["form"], None) if shape_f10_cmd(c, case) else c for c in case["cmds"]])
+
+
 def shape_f6_cmd(cmd, case):
     """Threaded callable alias inside a pipeline of >= 2 stages."""
     return _threaded(case) and len(cmd["stages"]) >= 2 and _alias_count(cmd) >= 1
@@ -461,6 +643,8 @@ def _candidates(case, level, group, probs, hang_cmd, also):
             out.append("C09-F7")
         if hang_cmd is not None and shape_f6_cmd(hang_cmd, case):
             out.append("C09-F6")
+        if hang_cmd is not None and shape_f8_cmd(hang_cmd, case):
+            out.append("C09-F8")
         return out
     if shape_f1(case):
         blocked = shape_f1_blocked_alias(case)
@@ -492,12 +676,22 @@ def _candidates(case, level, group, probs, hang_cmd, also):
     if shape_f7(case):
         # the alias thread ends the *outer* pipeline (global XSH.lastcmd): PopenThread/ProcProxyThread clean-up runs off the main
         # thread, forgets the saved handlers without restoring them; the stale handler then swallows SIGINT
+        # (which of the stale handlers are left depends on where the race ends the outer pipeline: those of the PopenThread of an
+        # external stage, or only the SIGINT handler of the alias thread - _close_proc() gives that one back only when the thread
+        # is no longer alive, and here the caller *is* that thread)
         if group == "handler" and all(p.startswith("handler ") and ("-> PopenThread._signal_" in p or p.endswith("-> ProcProxyThread._signal_int"))
-                                      for p in probs) and any("PopenThread" in p for p in probs):
+                                      for p in probs):
             out.append("C09-F7")
         if group == "sigint" and all("surfaced as None" in p and ("PopenThread._signal_int" in p or "ProcProxyThread._signal_int" in p)
                                      for p in probs):
             out.append("C09-F7")
+    if shape_f10(case):
+        # iterraw() dies with AttributeError (safe_readable() on the integer that stands for `e>o`) before proc.wait():
+        # the alias thread's SIGINT handler is never given back and swallows the next Ctrl-C
+        if group == "handler" and all(p.startswith("handler SIGINT:") and p.endswith("-> ProcProxyThread._signal_int") for p in probs):
+            out.append("C09-F10")
+        if group == "sigint" and all("surfaced as None" in p and "ProcProxyThread._signal_int" in p for p in probs):
+            out.append("C09-F10")
     if group == "sigint" and "std-closed" in also and shape_f3(case):
         # a non-last alias thread died printing to the closed stream: returncode None, its SIGINT handler (F2) swallows the signal
         if all("surfaced as None" in p and "ProcProxyThread._signal_int" in p for p in probs):
@@ -534,6 +728,8 @@ def _group_of(problem):
         return "std"
     if problem.startswith("handler "):
         return "handler"
+    if problem.startswith("sigmask:"):
+        return "sigmask"
     if problem.startswith("cwd:"):
         return "cwd"
     if problem.startswith("env $"):
@@ -866,20 +1062,21 @@ def grid_cases():
     for s in STAGE_IDS:
         for form in FORMS:
             for thread in (True, False):
-                yield {"cfg": {"thread": thread, "capture_always": False, "raise": i % 3 != 0}, "cmds": [mk_cmd([s], form)],
+                yield {"cfg": {"thread": thread, "capture_always": False, "raise": i % 3 != 0}, "cmds": [mk_cmd(make_finite([s]), form)],
                        "reps": 3 if i % 5 == 0 else 1}
                 i += 1
     for a in STAGE_IDS:
         for b in STAGE_IDS:
             form = FORMS[i % len(FORMS)]
-            yield {"cfg": {"thread": i % 4 != 0, "capture_always": i % 11 == 0, "raise": i % 3 != 0}, "cmds": [mk_cmd([a, b], form)],
+            yield {"cfg": {"thread": i % 4 != 0, "capture_always": i % 11 == 0, "raise": i % 3 != 0}, "cmds": [mk_cmd(make_finite([a, b]), form)],
                    "reps": 3 if i % 7 == 0 else 1}
             i += 1
     for s in STAGE_IDS:
         for pre in (["emit", "cat"], ["big", "acat"], ["abig", "cat"]):
-            yield {"cfg": {"thread": True, "capture_always": False, "raise": i % 2 == 0}, "cmds": [mk_cmd(pre + [s], FORMS[i % len(FORMS)])],
+            yield {"cfg": {"thread": True, "capture_always": False, "raise": i % 2 == 0}, "cmds": [mk_cmd(make_finite(pre + [s]), FORMS[i % len(FORMS)])],
                    "reps": 1}
             i += 1
+    yield from early_exit_matrix(i)
     for cls, lst in REDIRS.items():
         for where, text in lst:
             for stages in (["emit"], ["emit", "cat"], ["aok"], ["abig", "acat"], ["big", "head"]):
@@ -889,6 +1086,44 @@ def grid_cases():
                 yield {"cfg": {"thread": i % 2 == 0, "capture_always": False, "raise": True},
                        "cmds": [mk_cmd(stages, FORMS[i % len(FORMS)], [cls, idx, text])], "reps": 3 if i % 4 == 0 else 1}
                 i += 1
+
+
+def early_exit_matrix(i0=0):
+    """Deterministic family: pipelines of 3 and 4 stages with a long / slow / endless producer in front and an
+    early-exiting stage at *every* position behind it (all other stages copy stdin to stdout until EOF, the last one may
+    need EOF before it writes), in every capture form, with and without threads.  Producer, early-exit kind and reader
+    kind rotate with the index; at most one callable alias per pipeline (two are the recorded race F3/F5/F6)."""
+    producers = ["yes", "big", "slow", "yes", "abig"]
+    earlies = ["head", "x0", "linger", "x3", "emit", "ahead", "aok"]
+    readers = ["cat", "rcat", "cat", "acat"]
+    lasts = ["cat", "rcat", "wc", "acat", "cat"]
+    j = i0
+    for n in (3, 4):
+        for e in range(1, n):                       # position of the early-exiting stage
+            for form in FORMS:
+                for thread in (True, False):
+                    for _rot in (0, 1):
+                        j += 1
+                        prod = producers[j % len(producers)]
+                        if STAGES[prod][2] and not thread:
+                            prod = "big"
+                        early = earlies[(j // 2) % len(earlies)]
+                        if STAGES[early][2] and (not thread or STAGES[prod][2]):
+                            early = "head"
+                        alias_used = STAGES[prod][2] or STAGES[early][2]
+                        stages = [prod]
+                        for k in range(1, n):
+                            if k == e:
+                                x = early
+                            else:
+                                x = lasts[(j + k) % len(lasts)] if k == n - 1 else readers[(j + k) % len(readers)]
+                                if STAGES[x][2] and (alias_used or not thread):
+                                    x = "cat"
+                                alias_used = alias_used or STAGES[x][2]
+                            stages.append(x)
+                        stages = make_finite(stages)
+                        yield {"cfg": {"thread": thread, "capture_always": j % 13 == 0, "raise": j % 3 != 0}, "cmds": [mk_cmd(stages, form)],
+                               "reps": 3 if j % 9 == 0 else 1}
 
 
 def _redir_index(where, n, pick=0):
@@ -913,21 +1148,30 @@ def case_strategy(tier):
 
     @hs.composite
     def pipeline(draw):
-        shape = draw(hs.sampled_from(["free"] * 3 + ["producer"]))
+        shape = draw(hs.sampled_from(["free"] * 3 + ["producer", "early"]))
         if shape == "producer":
             pre = draw(hs.lists(stage, max_size=1))
             post = draw(hs.lists(stage, max_size=1))
             stages = pre + [draw(hs.sampled_from(sorted(PRODUCERS))), draw(hs.sampled_from(sorted(NONREADERS)))] + post
+        elif shape == "early":
+            # producer, then copy stages with an early-exiting stage at any position among them, optionally a second one
+            n = draw(hs.sampled_from([3, 3, 4, 4, 5]))
+            stages = [draw(hs.sampled_from(sorted(PRODUCERS)))]
+            stages += [draw(hs.sampled_from(sorted(NEED_EOF))) for _ in range(n - 1)]
+            stages[draw(hs.integers(1, n - 1))] = draw(hs.sampled_from(EARLY))
+            if draw(hs.booleans()):
+                stages[draw(hs.integers(1, n - 1))] = draw(hs.sampled_from(EARLY))
         else:
             n = draw(hs.sampled_from([1, 1, 1, 2, 2, 2, 2, 3, 3, 4]))
             stages = [draw(stage) for _ in range(n)]
+        stages = make_finite(stages)
         form = draw(hs.sampled_from(FORMS))
         redir = None
         if draw(hs.integers(0, 9)) < 3:
             cls = draw(hs.sampled_from(["valid", "missing", "conflict"]))
             where, text = draw(hs.sampled_from(REDIRS[cls]))
             idx = _redir_index(where, len(stages), draw(hs.integers(0, 3)))
-            if idx is not None:
+            if idx is not None and stages[idx] not in ENDLESS:      # an endless producer is never pointed at a file
                 redir = [cls, idx, text]
         return mk_cmd(stages, form, redir)
 
@@ -946,6 +1190,291 @@ def case_strategy(tier):
         return {"cfg": cfg, "cmds": cmds, "reps": r}
 
     return cases()
+
+
+# ----------------------------------------------------------------------------------------
+# family jobctl: histories of job-control operations on a real terminal (vlib/c09_tty.py)
+
+
+def run_history_case(case, log=None):
+    """One history in one fresh session (a fork of this worker on a fresh pty).  -> result dict of c09_tty.run_history"""
+    from vlib import c09_tty as tt
+
+    st = _state
+    cfg = case["cfg"]
+
+    def fork_session(ctl_r, res_w):
+        tt.session_main(ctl_r, res_w, lambda: fresh_session(cfg), st["ob"])
+
+    return tt.run_history(fork_session, case["ops"], log=log)
+
+
+def shape_f9(case):
+    """`$[...]` job suspended with Ctrl-Z (then resumed with fg / bg)."""
+    return any(op["op"] == "run" and op.get("form") == "uncap" and op.get("during") == "suspend" for op in case["ops"])
+
+
+def shape_f11(case):
+    """Background pipeline (`&`) whose stages do not end together by themselves: the last stage needs EOF from the first
+    (`sleep 0.3 | vcat &`), or the first is still writing when the last has ended (`vemit big.txt ... | sleep 0.3 &`)."""
+    return any(op["op"] == "amp" and op["job"] in ("sc", "bs") and op["dur"] == "short" for op in case["ops"])
+
+
+def _avoid_f11(case):
+    return dict(case, ops=[dict(op, job="ss") if (op["op"] == "amp" and op["job"] in ("sc", "bs") and op["dur"] == "short") else op
+                           for op in case["ops"]])
+
+
+def classify_jobctl(case, bucket, text):
+    if bucket.startswith("fg-child-running:") and "created by `$[" in text and shape_f9(case):
+        return "C09-F9"
+    if bucket.split(":")[0] in ("child-running", "child-unreaped", "final-children", "final-fds", "final-jobs") and shape_f11(case):
+        return "C09-F11"
+    return None
+
+
+def history_labels(case):
+    labels = ["jobctl", "thread:%s" % ("on" if case["cfg"].get("thread") else "off"), "ops:%d" % len(case["ops"])]
+    return labels
+
+
+def history_key(case):
+    return ("jobctl", sorted(case["cfg"].items()), json.dumps(case["ops"], sort_keys=True))
+
+
+def grid_histories():
+    """Deterministic core: every job form x threading x {suspend -> fg -> exits | suspend -> fg -> suspend -> fg -> Ctrl-C |
+    suspend -> bg -> fg -> killed | & -> fg -> suspend -> bg -> killed from outside}, the multi-stage jobs, plain lines in between."""
+    def run(job="s", dur="long", form="bare", during="suspend"):
+        return {"op": "run", "job": job, "dur": dur, "form": form, "during": during}
+
+    def fg(during="wait", arg=""):
+        return {"op": "fg", "arg": arg, "during": during}
+
+    bg = {"op": "bg", "arg": ""}
+    i = 0
+    for thread in (False, True):
+        for form in ("bare", "hidden", "cap", "uncap"):
+            seqs = [
+                [run(dur="short", form=form), fg("wait")],
+                [run(form=form), fg("suspend"), fg("ctrlc")],
+                [run(form=form), bg, {"op": "plain", "cmd": "pipe"}, fg("kill")],
+                [run(form=form, during="ctrlc"), run(form=form, during="term"), run(dur="short", form=form, during="wait")],
+            ]
+            for ops in seqs:
+                yield {"cfg": {"thread": thread, "capture_always": False, "raise": i % 2 == 0}, "ops": ops}
+                i += 1
+        seqs = [
+            [{"op": "amp", "job": "s", "dur": "long"}, fg("suspend"), bg, {"op": "killjob", "which": 0, "sig": "SIGTERM"}, {"op": "jobs"}],
+            [{"op": "amp", "job": "s", "dur": "short"}, {"op": "amp", "job": "s", "dur": "long"}, fg("ctrlc", "-"), fg("wait", "+")],
+            [run(), run(), fg("kill", "-"), {"op": "ctrlc-prompt"}, fg("ctrlc")],
+            [run(), {"op": "killjob", "which": 0, "sig": "SIGKILL"}, {"op": "plain", "cmd": "ok"}, {"op": "ctrlc-prompt"}],
+            [run(), {"op": "killjob", "which": 0, "sig": "SIGHUP"}, {"op": "jobs"}],
+            [{"op": "amp", "job": "s", "dur": "long"}, {"op": "plain", "cmd": "ok"}, {"op": "plain", "cmd": "pipe-notfound"},
+             {"op": "plain", "cmd": "cap"}, {"op": "killjob", "which": 0, "sig": "SIGKILL"}, {"op": "plain", "cmd": "pipe-fail"}],
+            [run(form="uncap"), {"op": "plain", "cmd": "early"}, {"op": "killjob", "which": 0, "sig": "SIGTERM"}, {"op": "plain", "cmd": "cap-fail"}],
+            [{"op": "objlive"}, {"op": "ctrlc-prompt"}, run(dur="short"), {"op": "objlive"}, fg("wait")],
+        ]
+        for job in ("es", "sc", "ss", "bs"):
+            seqs.append([run(job=job, dur="short"), fg("wait")])
+            seqs.append([run(job=job), bg, fg("ctrlc")])
+            seqs.append([{"op": "amp", "job": job, "dur": "long"}, fg("suspend"), fg("term")])
+        for ops in seqs:
+            yield {"cfg": {"thread": thread, "capture_always": False, "raise": i % 2 == 0}, "ops": ops}
+            i += 1
+
+
+def history_strategy(tier):
+    from hypothesis import strategies as hs
+
+    from vlib import c09_tty as tt
+
+    job = hs.sampled_from(["s"] * 5 + ["es", "sc", "ss", "bs"])
+    dur = hs.sampled_from(["short", "long", "long"])
+    form = hs.sampled_from(["bare", "bare", "hidden", "uncap", "cap"])
+    during = hs.sampled_from(["wait", "suspend", "suspend", "ctrlc", "term", "kill"])
+    arg = hs.sampled_from(["", "", "", "+", "-", "1", "2"])
+    run = hs.builds(lambda j, d, f, a: {"op": "run", "job": j, "dur": d, "form": f, "during": a}, job, dur, form, during)
+    suspend = hs.builds(lambda j, d, f: {"op": "run", "job": j, "dur": d, "form": f, "during": "suspend"}, job, dur, form)
+    amp = hs.builds(lambda j, d: {"op": "amp", "job": j, "dur": d}, job, dur)
+    fg = hs.builds(lambda a, w: {"op": "fg", "arg": a, "during": w}, arg, during)
+    bg = hs.builds(lambda a: {"op": "bg", "arg": a}, arg)
+    kill = hs.builds(lambda w, s: {"op": "killjob", "which": w, "sig": s}, hs.integers(0, 2), hs.sampled_from(["SIGKILL", "SIGTERM", "SIGHUP"]))
+    plain = hs.builds(lambda c: {"op": "plain", "cmd": c}, hs.sampled_from(sorted(tt.PLAIN)))
+    other = hs.one_of(plain, plain, hs.just({"op": "jobs"}), hs.just({"op": "ctrlc-prompt"}), kill, run, hs.just({"op": "objlive"}))
+    phrase = hs.one_of(
+        hs.tuples(suspend, hs.one_of(fg, fg, bg)).map(list),
+        hs.tuples(suspend, other, hs.one_of(fg, bg)).map(list),
+        hs.tuples(amp, hs.one_of(fg, fg, kill, other)).map(list),
+        hs.tuples(suspend, bg, fg).map(list),
+        other.map(lambda o: [o]),
+        fg.map(lambda o: [o]),
+    )
+
+    @hs.composite
+    def histories(draw):
+        cfg = {"thread": draw(hs.booleans()), "capture_always": False, "raise": draw(hs.booleans())}
+        ops = []
+        for ph in draw(hs.lists(phrase, min_size=1, max_size=3)):
+            ops += ph
+        return {"cfg": cfg, "ops": ops[:8]}
+
+    return histories()
+
+
+def shape_f9_resumed(case):
+    """... and an fg / bg later in the history (which may resume it)."""
+    seen = False
+    for op in case["ops"]:
+        if op["op"] == "run" and op.get("form") == "uncap" and op.get("during") == "suspend":
+            seen = True
+        elif seen and op["op"] in ("fg", "bg"):
+            return True
+    return False
+
+
+def _avoid_f9(case):
+    """The recorded shape is taken out by construction: once a `$[...]` job has been suspended no fg / bg follows
+    (`jobs` instead); suspending it, and killing it while it is stopped, stay in."""
+    ops = []
+    seen = False
+    for op in case["ops"]:
+        if op["op"] == "run" and op.get("form") == "uncap" and op.get("during") == "suspend":
+            seen = True
+        elif seen and op["op"] in ("fg", "bg"):
+            op = {"op": "jobs"}
+        ops.append(op)
+    return dict(case, ops=ops)
+
+
+def check_history(case, tolerate=frozenset(), stats=None, confirm=True):
+    """-> list[Failure].  Anything timing-dependent is reproduced in a second fresh session before it is reported."""
+    res = run_history_case(case)
+    if stats is not None:
+        for lb in set(res["labels"]):
+            stats.hist["jobctl:" + lb] += 1
+        stats.hist["jobctl-seconds"] += int(round(res.get("seconds", 0)))
+    if res["inconclusive"]:
+        if stats is not None:
+            stats.inconclusive += 1
+            stats.hist["jobctl-inconclusive"] += 1
+            if len(stats.notes) < 5:
+                stats.notes.append("jobctl inconclusive: %s" % res["inconclusive"][:300])
+        return []
+    if not res["problems"]:
+        return []
+    buckets = {b for b, _t in res["problems"]}
+    if confirm:
+        again = run_history_case(case)
+        if stats is not None:
+            stats.hist["jobctl-seconds"] += int(round(again.get("seconds", 0)))
+        if {b for b, _t in again["problems"]} != buckets:
+            if stats is not None:
+                stats.hist["jobctl-not-reproduced"] += 1
+                stats.inconclusive += 1
+                if len(stats.notes) < 5:
+                    stats.notes.append("jobctl: not reproduced in a second session: %s on %s" % (
+                        res["problems"][0][1][:200], [_describe(o) for o in case["ops"]]))
+            return []
+    fails = []
+    for bucket, text in res["problems"]:
+        fid = classify_jobctl(case, bucket, text)
+        if fid is not None and fid in tolerate:
+            if stats is not None:
+                stats.excluded_known[fid] += 1
+            continue
+        detail = "[jobctl, $THREAD_SUBPROCS=%s] %s | history: %s" % (case["cfg"].get("thread"), text, " ; ".join(res["trace"]))
+        fails.append(Failure("jobctl:" + bucket.split(":")[0], dict(case, family="jobctl"), detail[:1800], finding=fid, bucket=fid or "jobctl:" + bucket))
+    return fails
+
+
+def _describe(op):
+    from vlib import c09_tty as tt
+
+    return tt.describe_op(op)
+
+
+def _shrink_history(f, budget=6):
+    """Drop operations (last first) while the same bucket is still reported."""
+    cur = f
+    steps = 0
+    progress = True
+    while progress and steps < budget and len(cur.case["ops"]) > 1:
+        progress = False
+        for i in reversed(range(len(cur.case["ops"]))):
+            steps += 1
+            if steps > budget:
+                break
+            cand = dict(cur.case, ops=cur.case["ops"][:i] + cur.case["ops"][i + 1:])
+            got = [g for g in check_history(cand, confirm=False) if g.bucket == cur.bucket]
+            if got:
+                cur = got[0]
+                progress = True
+                break
+    return cur
+
+
+def _evaluate_history(case, st, family):
+    s = _state
+    if s.get("failing_cases", 0) >= MAX_FAILING_CASES:
+        st.discards += 1
+        return
+    open_ids = s["open"]
+    if "C09-F9" in open_ids and shape_f9_resumed(case):
+        st.excluded_known["C09-F9"] += 1
+        case = _avoid_f9(case)
+    if "C09-F11" in open_ids and shape_f11(case):
+        st.excluded_known["C09-F11"] += 1
+        case = _avoid_f11(case)
+    fails = check_history(case, tolerate=open_ids, stats=st)
+    st.case(history_key(case), True, [family] + history_labels(case),
+            sample={"cfg": case["cfg"], "ops": [_describe(o) for o in case["ops"]]}, max_per_label=2)
+    for f in fails:
+        st.fail(f)
+    if any(not (f.finding and f.finding in open_ids) for f in fails):
+        # a hang costs the full bound twice (it is confirmed in a second session): one is enough for one task
+        s["failing_cases"] = s.get("failing_cases", 0) + (MAX_FAILING_CASES if any(f.kind == "jobctl:hang" for f in fails) else 2)
+
+
+def _finish_histories(st):
+    best = {}
+    for f in st.failures:
+        b = best.get(f.bucket)
+        if b is None or len(f.case["ops"]) < len(b.case["ops"]):
+            best[f.bucket] = f
+    out = []
+    for n, f in enumerate(best.values()):
+        if n < 2 and f.kind != "jobctl:hang" and not (f.finding and f.finding in _state["open"]):
+            f = _shrink_history(f)
+        out.append(f)
+    st.failures = out
+
+
+def worker_jobctl(arg):
+    kind, a, b, scratch, tier = arg
+    _setup_files(scratch)
+    st = Stats()
+    if kind == "grid":
+        shard, nshards = a, b
+        for i, case in enumerate(grid_histories()):
+            if i % nshards == shard:
+                _evaluate_history(case, st, "jobctl-grid")
+    else:
+        seed, n = a, b
+        deadline = time.monotonic() + (JOBCTL_TASK_S if tier == "quick" else 10 * JOBCTL_TASK_S)
+
+        def body(case):
+            if time.monotonic() > deadline:
+                st.hist["jobctl-budget-skipped"] += 1
+                return
+            _evaluate_history(case, st, "jobctl-generated")
+
+        common.run_given(history_strategy(tier), body, seed, n)
+        if st.hist["jobctl-budget-skipped"]:
+            st.inconclusive += 1
+            st.notes.append("jobctl: a task hit its wall budget, %d drawn histories were not run" % st.hist["jobctl-budget-skipped"])
+    _finish_histories(st)
+    return st
 
 
 # ----------------------------------------------------------------------------------------
@@ -987,6 +1516,12 @@ def _evaluate(case, st, family):
             return
         if case["reps"] > 3:
             case = dict(case, reps=3)
+    if "C09-F8" in open_ids and shape_f8(case):
+        st.excluded_known["C09-F8"] += 1
+        case = _avoid_f8(case)
+    if "C09-F10" in open_ids and shape_f10(case):
+        st.excluded_known["C09-F10"] += 1
+        case = _avoid_f10(case)
     if "C09-F7" in open_ids and shape_f7(case) and case["reps"] > 3:
         st.excluded_known["C09-F7"] += 1
         case = dict(case, reps=3)
@@ -999,7 +1534,8 @@ def _evaluate(case, st, family):
     for f in fails:
         st.fail(f)
     if any(not (f.finding and f.finding in open_ids) for f in fails):
-        s["failing_cases"] = s.get("failing_cases", 0) + 1
+        # an unattributed hang costs the full bound (and leaves a worker that is hard to clean): one is enough for one task
+        s["failing_cases"] = s.get("failing_cases", 0) + (MAX_FAILING_CASES if any(f.kind == "hang" for f in fails) else 1)
 
 
 def _dedupe(st):
@@ -1105,8 +1641,12 @@ def worker_random(arg):
 def worker_one(arg):
     """Replay of a single case in a fresh process.  -> {'failures': [...]}"""
     case, scratch = arg
-    _setup(scratch)
-    fails = check_case(case)
+    if "ops" in case:
+        _setup_files(scratch)
+        fails = check_history(case)
+    else:
+        _setup(scratch)
+        fails = check_case(case)
     return {"failures": [f.to_json() for f in fails]}
 
 
@@ -1118,7 +1658,7 @@ def worker_any(arg):
         res = worker_one(payload)
         res["seconds"] = time.time() - t0
         return res
-    st = worker_grid(payload) if kind == "grid" else worker_random(payload)
+    st = worker_grid(payload) if kind == "grid" else worker_jobctl(payload) if kind == "jobctl" else worker_random(payload)
     st.hist["worker-seconds:" + kind] += int(time.time() - t0)
     return st
 
@@ -1136,6 +1676,9 @@ def _normalise(case):
     case.setdefault("cfg", {})
     case.setdefault("reps", 1)
     cmds = []
+    if "ops" in case:
+        case.setdefault("cfg", {})
+        return case
     for c in case["cmds"]:
         c = dict(c)
         c.setdefault("form", "bare")
@@ -1184,10 +1727,14 @@ def _committed_replays():
 
 def main(run):
     helpers.ensure()
-    nw = int(os.environ.get("C09_WORKERS", "16"))
+    nw = max(1, min(16, int(os.environ.get("C09_WORKERS") or os.environ.get("VERIF_PROCS") or 16)))
     per = int(os.environ.get("C09_PER") or run.n(60, 2000))      # C09_PER: development override only
     replays = _committed_replays()
     tasks = [("replay", (c, run.scratch)) for c in replays]
+    # job-control histories on ptys: mostly waiting (polling), started first so that they overlap with the CPU-bound families
+    nj = 8
+    tasks += [("jobctl", ("grid", i, nj, run.scratch, run.tier)) for i in range(nj)]
+    tasks += [("jobctl", ("random", common.worker_seed(run.seed, 200000 + w), run.n(10, 120), run.scratch, run.tier)) for w in range(nj)]
     tasks += [("grid", (i, 16, run.scratch, run.tier)) for i in range(16)]
     chunk = 60 if run.tier == "quick" else 200
     nrandom = max(1, (per * 16) // chunk)
@@ -1217,7 +1764,8 @@ def main(run):
         except common.HarnessError as e:
             run.extra["terminal_ownership"] = "NOT covered: pty worker failed (%s)" % str(e)[-300:]
     else:
-        run.extra["terminal_ownership"] = "NOT covered in the quick tier (needs a pty-owning worker; thorough tier only)"
+        run.extra["terminal_ownership"] = ("covered by family jobctl (interactive sessions on their own ptys: tcgetpgrp after every return to the "
+                                           "prompt); the pty-owning worker for the pipeline-shape cases runs in the thorough tier only")
     run.extra["strengths"] = {
         "immediate": "after the command(s), grace poll <= %.0f s" % GRACE_S,
         "steady": "counts after N repetitions <= counts after 1 repetition",
@@ -1236,6 +1784,21 @@ def main(run):
         "xonsh thread objects, cwd, no child, no thread, descriptor table); a worker that cannot be restored stops (inconclusive, noted)",
         "a task stops evaluating after %d cases with unattributed failures (bounded cost on a badly broken tree)" % MAX_FAILING_CASES,
         "termios attributes of the harness pty are recorded but only counted (the property names terminal ownership)",
+        "a command line whose last stage cannot end by itself (endless producer last, or feeding a stage that needs EOF) is not a command "
+        "that finishes; never generated.  The endless producer is a helper that is killed by SIGPIPE like yes(1) and by alarm(45) at the latest",
+        "jobctl: Ctrl-Z / Ctrl-C are bytes typed at the pty master (what a user can do); SIGTSTP sent from outside to a *threaded* captured "
+        "command (whose suspend character xonsh disables by design) is outside the domain; when Ctrl-Z is ignored the user presses Ctrl-C",
+        "jobctl: the user acts only on a stable state (job owns the terminal, processes exec'ed, shell asleep, 0.12 s): a signal that arrives "
+        "between fork and exec of a stage, or before the SIGCONT xonsh sends to a freshly started pipeline, is lost by design of the kernel / "
+        "of issue #2999's fix; Ctrl-Z is pressed again (<= 3 times) while a part of the job still runs",
+        "jobctl: a precondition that is not reached within 8 s is inconclusive; a violation is reported only when a second fresh session "
+        "shows the same failure classes; job-table entries of finished jobs may stay until the next table-touching command (C20's business)",
+        "jobctl: Ctrl-C at the prompt is asked only of a session without suspended jobs; the final comparison is made after all jobs were "
+        "killed, `jobs` and one neutral alias command",
+        "while C09-F8 is open `!(...)` lines of its shape are run as `$(...)`; while C09-F9 is open no fg/bg follows the suspension of a "
+        "`$[...]` job in a history; while C09-F10 is open `$[... alias e>o]` loses its `e>o`; while C09-F11 is open a short-lived background "
+        "pipeline whose stages do not end together is replaced by `sleep 0.3 | sleep 0.3 &` (all counted in excluded_known)",
+        "background pipelines are exercised by family jobctl only (cmd &, on a terminal); the pipeline-shape families generate foreground lines",
     ]
 
 
